@@ -102,6 +102,7 @@ def total_ob(family, which, call, regime, xcase, expected_fn, mcase=None, mixed=
     def check():
         t0 = time.time()
         hyps_ = hyps
+        tm.KEEP_ZERO_FACTOR = True          # a literal 0 factor is kept: 0 * inf must show up as nan
         try:
             if mixed:
                 term, live = term_at_mixed(family, which, call, hyps)
@@ -110,6 +111,8 @@ def total_ob(family, which, call, regime, xcase, expected_fn, mcase=None, mixed=
                 term = term_at(family, which, call, hyps)
         except Unsupported as e:
             return Verdict('unknown', 'engine', time.time() - t0, str(e))
+        finally:
+            tm.KEEP_ZERO_FACTOR = False
         try:
             cs = extreal.cases(term, hyps_)
         except extreal.Split as s:
@@ -214,6 +217,69 @@ def raises_ob(family, which, call, neg):
                       clause='%s raises ValueError when %s' % (call_expr(family, which, call), neg))
 
 
+WW_REPLAY = '''
+import pfhedge.nn as pnn
+from pfhedge.instruments import BrownianStock, EuropeanOption
+d = EuropeanOption(BrownianStock(sigma=0.2, cost=W["cost"]), strike=W["K"])
+m = pnn.WhalleyWilmott(d)
+out = m(T([[W["x"], W["t"], W["v"], W["prev"]]]).to(torch.float32))
+result = {"got": float(out.reshape(-1)[0])}
+'''
+
+
+def ww_module_ob(regime, xcase, cost_case):
+    """the Whalley-Wilmott hedging module at zero time to maturity / zero volatility: the hedge is finite - the limiting delta where
+    the band has collapsed, the previous hedge where the band is the whole line (gamma = +inf at the strike)."""
+    c_, a_, prev = tm.var('cost'), tm.var('a_ww'), tm.var('prev')
+    rh = {'t=0': [tm.eq(t, tm.ZERO), tm.gt(v, tm.ZERO)], 'v=0': [tm.eq(v, tm.ZERO), tm.gt(t, tm.ZERO)], 't=0,v=0': [tm.eq(t, tm.ZERO), tm.eq(v, tm.ZERO)]}[regime]
+    xh = {'x>0': [tm.gt(x, tm.ZERO)], 'x<0': [tm.lt(x, tm.ZERO)], 'x=0': [tm.eq(x, tm.ZERO)]}[xcase]
+    ch = {'cost>0': [tm.gt(c_, tm.ZERO)], 'cost=0': [tm.eq(c_, tm.ZERO)]}[cost_case]
+    hyps = [tm.gt(K, tm.ZERO), tm.gt(a_, tm.ZERO)] + rh + xh + ch
+    tag = '%s,%s,%s' % (regime, xcase, cost_case)
+    point = {'x': {'x>0': 0.3, 'x<0': -0.3, 'x=0': 0.0}[xcase], 't': 0.0 if 't=0' in regime else 0.5, 'v': 0.0 if 'v=0' in regime else 0.2, 'K': 1.0, 'cost': 0.0 if cost_case == 'cost=0' else 1e-3, 'prev': 0.3}
+
+    def check():
+        t0 = time.time()
+        import torch
+        import pfhedge.nn as pnn
+        import pfhedge.instruments as pi
+        from pfv.torchlib.tensor import Tensor, inline_leaves
+        from pfv.proxies import SReal, explore
+
+        def run(c):
+            d = pi.EuropeanOption(pi.BrownianStock(cost=SReal(c_), dtype=torch.float64), strike=SReal(K))
+            m_ = pnn.WhalleyWilmott(d, a=SReal(a_))
+            vals = [x, t, v, prev]
+            inp = Tensor.fresh(lambda idx: vals[int(idx[-1].args[0])] if idx[-1].op == 'const' else tm.ite(tm.eq(idx[-1], tm.IZERO), x, tm.ite(tm.eq(idx[-1], tm.IONE), t, tm.ite(tm.eq(idx[-1], tm.const(2, 'I')), v, prev))), (1, 4), torch.float64)
+            return m_(inp)
+        tm.KEEP_ZERO_FACTOR = True          # a literal 0 factor is kept: 0 * inf must show up as nan
+        try:
+            paths = explore(run, hyps, max_paths=8)
+            rets = [p for p in paths if p.outcome() == 'returns']
+            if len(paths) != 1 or len(rets) != 1:
+                return Verdict('unknown', 'engine', time.time() - t0, 'paths: %s' % [(p.outcome(), str(p.exception)[:150], p.traceback[-300:]) for p in paths])
+            term = inline_leaves(rets[0].result.at((tm.IZERO, tm.IZERO)), rets[0].ctx)
+        except Unsupported as e:
+            return Verdict('unknown', 'engine', time.time() - t0, str(e))
+        finally:
+            tm.KEEP_ZERO_FACTOR = False
+        try:
+            cs = extreal.cases(term, hyps)
+        except extreal.Split as s_:
+            return Verdict('unknown', 'extreal', time.time() - t0, 'sign case analysis did not close: %s' % tm.show(s_.cond))
+        sample = {'claim': 'Whalley-Wilmott hedge finite', 'case': tag, 'term': tm.show(term)[:400], 'values': [c[1][0] + ((':' + tm.show(c[1][1])[:80]) if c[1][0] == 'fin' else '') for c in cs][:4]}
+        for (hy, val) in cs:
+            if val[0] != 'fin':
+                rr = real_exec(WW_REPLAY, point)
+                got = rr.get('result', {}).get('got') if rr.get('ok') else None
+                confirmed = (not rr.get('ok')) or got is None or isinstance(got, str) or got != got or got in (float('inf'), float('-inf'))
+                return Verdict('refuted', 'extreal+z3', time.time() - t0, 'WhalleyWilmott.forward at %s evaluates to %s' % (tag, val[0]), witness={'point': point, 'real_value': got}, sample=sample,
+                               replay={'real': rr, 'confirmed': bool(confirmed)})
+        return Verdict('proved', 'extreal+z3', time.time() - t0, '%d sign sub-case(s), all finite' % len(cs), sample=sample)
+    return Obligation('C18/WhalleyWilmott.forward/total[%s]' % tag, 'post', 'pfhedge.nn.modules.ww.WhalleyWilmott.forward', check, [PROP],
+                      clause='the Whalley-Wilmott hedge is finite at %s (European call; previous hedge finite; risk aversion a > 0)' % tag)
+
+
 def build(tier, seed):
     from pfv.torchlib import import_pfhedge
     import_pfhedge()
@@ -263,6 +329,10 @@ def build(tier, seed):
                 calls = spec['calls'] if sig(family, which, True)[2] is not None else (None,)
                 for call in calls:
                     obs.append(raises_ob(family, which, call if sig(family, which, call)[2] is not None else None, neg))
+    for regime in ('t=0', 'v=0', 't=0,v=0'):
+        for xc in ('x>0', 'x<0', 'x=0'):
+            for cc in ('cost>0', 'cost=0'):
+                obs.append(ww_module_ob(regime, xc, cc))
     # Whalley-Wilmott band width is defined (finite) for every real gamma, incl. negative gamma of binaries:
     # the definedness obligations of the real ww_width (fractional powers) must be provable without a sign assumption
     from contracts import c20
